@@ -263,6 +263,35 @@ func (m *Machine) packageScan() *FuncReport {
 							}
 						}
 					}
+					// the format string itself is a constant: text taken from the input must not be read as verbs
+					// (a width such as %1000000[1]v makes fmt allocate what the input declares)
+					{
+						fpos, name := -1, ""
+						if callee := ci.Common().StaticCallee(); callee != nil {
+							name = callee.Name()
+						} else if ci.Common().IsInvoke() {
+							name = ci.Common().Method.Name()
+						}
+						switch {
+						case name == "newCodecError":
+							fpos = 1
+						case name == "Fprintf":
+							fpos = 1
+						case strings.HasSuffix(name, "f"):
+							fpos = 0
+						}
+						if fn.Name() == "newCodecError" {
+							fpos = -1 // the forwarder itself: its format is its caller's argument, checked there
+						}
+						if fpos >= 0 && fpos < len(vals) && vals[fpos] != nil {
+							fv := unbox(vals[fpos])
+							if b, ok := fv.Type().Underlying().(*types.Basic); ok && b.Info()&types.IsString != 0 {
+								if _, isConst := fv.(*ssa.Const); !isConst {
+									bad = append(bad, fmt.Sprintf("%s builds its format string at run time", m.site(ins)))
+								}
+							}
+						}
+					}
 					// the verbs of a constant format string, in argument order
 					var verbs []byte
 					fmtAt := -1
